@@ -1,5 +1,7 @@
 import RxProofs.Lemmas.AggFold
 import RxProofs.Lemmas.AggSeqEq
+import RxProofs.Lemmas.AggSeqOrient
+import RxProofs.Lemmas.AggHash
 /-!
 # C06 — aggregating operators match their reference semantics
 
@@ -275,6 +277,25 @@ theorem to_list_eq {α} (lag : Bool) (raw : List (Notif α)) :
 theorem to_set_eq {α} (eq : α → α → Bool) (lag : Bool) (raw : List (Notif α)) :
     (toSetO eq).out lag raw = atEnd (ending raw) [.next ((elems raw).foldl (setAdd eq) []), .completed] :=
   toSetO_out eq lag raw
+
+/-- **unhashable elements, the code as it is** (`toSetHO`: `s.add` is the `on_next` handler itself): an unhashable element
+raises `TypeError` into the emitter, is skipped, and the subscriber finally gets the set of the *hashable* elements —
+where the reference `set(xs)` raises.  Same for an unhashable key in `to_dict` (`m[key] = element` is outside the `try`s). -/
+theorem to_set_unhashable {α} (h : α → Bool) (eq : α → α → Bool) (lag : Bool) (raw : List (Notif α)) :
+    (toSetHO h eq).out lag raw = atEnd (ending raw) [.next (((elems raw).filter h).foldl (setAdd eq) []), .completed]
+    ∧ (∀ s x, h x = false → (toSetHO h eq).handle s (.next x) = ⟨s, [], some "TypeError"⟩)
+    ∧ (∀ {κ ν} (hk : κ → Bool) (eqk : κ → κ → Bool) (key : α → Except Err κ) (elem : α → Except Err ν) s x k v,
+        key x = .ok k → elem x = .ok v → hk k = false →
+        (toDictHO hk eqk key elem).handle s (.next x) = ⟨s, [], some "TypeError"⟩) := by
+  refine ⟨?_, ?_, ?_⟩
+  · rw [toSetHO_out, to_set_eq, elems_filter_keep, ending_filter_keep]
+  · intro s x hx; simp [Op.handle, toSetHO, hx]
+  · intro κ ν hk eqk key elem s x k v h1 h2 h3; simp [Op.handle, toDictHO, h1, h2, h3]
+
+example : (toSetHO (fun (x : List Nat) => x.length < 2) (· == ·)).out false [.next [1], .next [2, 3], .next [4], .completed]
+    = [.next [[1], [4]], .completed] := by decide
+example : (toSetHO (fun (x : List Nat) => x.length < 2) (· == ·)).escapes false [.next [1], .next [2, 3], .next [4], .completed]
+    = ["TypeError"] := by decide
 
 /-- `{key(x): elem(x) for x in xs}` as the fold of `d[k] = v`; a mapper's exception at the element where it is raised -/
 theorem to_dict_eq {α κ ν} (eq : κ → κ → Bool) (key : α → Except Err κ) (elem : α → Except Err ν) (lag : Bool)
@@ -599,6 +620,27 @@ theorem seqeq_error {α} (eq : α → α → Bool) (hsym : ∀ a b, eq a b = eq 
   simp only [List.nil_append, restE_false, Bool.false_or] at this
   rw [seqOut, this]
   cases seqSpec eq (elems (sideOf .L pre)) (elems (sideOf .R pre)) (isDone (sideOf .L pre)) (isDone (sideOf .R pre)) <;> rfl
+
+/-- **arbitrary (asymmetric) comparer — what the code computes.**  The code always calls `comparer(queued, arriving)`:
+on both sides the element that **arrived first** is the first argument.  With every event tagged by its position in the trace
+(`tagFrom 0 tr`) and `orient c p q` = `c` applied with the earlier-tagged value first, the output for *every* interleaving is the
+declarative decision `seqSpec (orient c)` on the tagged sequences.  (For a symmetric `c` this is `seqeq_eq_spec`; for an
+asymmetric one the verdict on a pair genuinely depends on which side delivered it first.) -/
+theorem seqeq_asymmetric_spec {α} (c : α → α → Bool) (lag : Bool) (tr : List (Side × Notif α))
+    (hne : ∀ ev ∈ tr, ∀ e, ev.2 ≠ .error e) :
+    seqOut (fun a b => .ok (c a b)) lag tr
+      = specOut (seqSpec (orient c) (elems (sideOf .L (tagFrom 0 tr))) (elems (sideOf .R (tagFrom 0 tr)))
+          (isDone (sideOf .L (tagFrom 0 tr))) (isDone (sideOf .R (tagFrom 0 tr)))) := by
+  have h := seqOutFrom_sim c lag tr 0 {} (by intro q hq; simp at hq)
+  have h0 : untagRun ({} : SeqRun (Nat × α)) = {} := rfl
+  rw [h0] at h
+  rw [seqOut, h]
+  exact seqeq_eq_spec (orient c) (orient_symm c) lag (tagFrom 0 tr) (tagFrom_noerr 0 tr hne)
+
+example : seqOut (fun (a b : Nat) => .ok (decide (a ≤ b))) false [(.L, .next 1), (.R, .next 2), (.L, .completed), (.R, .completed)]
+    = [.next true, .completed] := by decide
+example : seqOut (fun (a b : Nat) => .ok (decide (a ≤ b))) false [(.R, .next 2), (.L, .next 1), (.L, .completed), (.R, .completed)]
+    = [.next false, .completed] := by decide
 
 /-- for every event trace and every (possibly raising, asymmetric) comparer the output does not depend on how promptly
 the two source subscriptions are disposed -/
